@@ -10,27 +10,33 @@ import random as _random
 
 CLAIM = dict(
     text=("Machine-checked proof (Lean 4) over ALL vertex/resource dictionaries, machines (dead chips, resource "
-          "exceptions), constraint lists, vertex orders, chip orders and RNG outcomes: the sequential placer (hence "
-          "Hilbert, RCM, breadth-first for any order their order functions produce), the random placer and the "
-          "annealer's initial placement return only Feasible placements (every vertex on exactly one working chip, "
-          "demand + reservations <= capacity per chip and resource, location and same-chip constraints honoured, "
-          "through the same-chip merge/expand), fail only with InsufficientResourceError/InvalidConstraintError on "
-          "well-formed input, never run out of the structural step bound, and succeed under the unit-demand "
-          "hypothesis; the annealing swap step preserves the resource invariant for every proposal and accept "
-          "decision. Tied to the code by exact correspondence (recorded orders, RNG draws, per-step annealing "
-          "proposals) and by the Lean Feasible predicate run on every placement of every placer, both annealing "
-          "kernels included."),
+          "exceptions), constraint lists, vertex orders, chip orders and RNG outcomes: whatever the sequential placer "
+          "(hence Hilbert, RCM, breadth-first for any order their order functions produce), the random placer and the "
+          "annealer's initial placement / trivial-solution path return is Feasible (every vertex on exactly one working "
+          "chip, demand + reservations <= capacity per chip and resource, location and same-chip constraints honoured) "
+          "- proved through the same-chip merge, the constraint loop and the expansion of merged vertices; the chip scan "
+          "of the sequential placer never exceeds one round per vertex (termination); the sequential placer succeeds "
+          "under the unit-demand hypothesis (counting argument); the decidable oracle equals the specification. Tied to "
+          "the code by exact correspondence (recorded vertex/chip orders, RNG draws, per-step annealing proposals "
+          "replayed through the model of the Python kernel, place/utils.py functions called directly) and by the Lean "
+          "Feasible predicate run on every placement of every placer, both annealing kernels included; undocumented "
+          "exceptions and failures under the unit-demand hypothesis are reported for every placer."),
     design="3/C02",
-    note=("rig_c_sa (C annealing kernel) is an opaque binary: covered only by the Feasible oracle on its outputs. "
-          "Float cost/temperature arithmetic of the annealer is abstracted to the recorded accept decision; "
-          "termination of the temperature schedule and of the `while dst == src` rejection sampling is not proved "
-          "(bounded in the harness through the on_temperature_change callback). Domain: demands name only resources "
-          "the machine has; resource exceptions and per-chip reservations only on working chips; a same-chip group "
-          "is pinned to at most one chip; constraints mention only known vertices; custom vertex orders are "
-          "permutations of the vertices."),
+    note=("NOT proved, only validated on every run (exact step-by-step correspondence + Feasible oracle on outputs): the "
+          "annealing swap step invariant (saStep_inv), the only-documented-errors clause as a theorem, completeness of "
+          "the random placer and of the annealer. rig_c_sa (C annealing kernel) is an opaque binary: covered only by "
+          "the Feasible oracle on its outputs. Float cost/temperature arithmetic of the annealer is abstracted to the "
+          "recorded accept decision; termination of the temperature schedule and of the `while dst == src` rejection "
+          "sampling is not proved (bounded in the harness through the on_temperature_change callback). Domain "
+          "(theorem hypotheses, applied to the generators): vertices_resources is a dict of non-negative demands for "
+          "resources the machine has, chip resources non-negative; resource exceptions and per-chip reservations only "
+          "on working chips; a same-chip group is pinned to at most one chip; constraints mention only known vertices; "
+          "custom vertex orders list every vertex; with no vertex at all reservations must fit the chips (documented "
+          "as undefined behaviour otherwise)."),
     technique="Lean 4 theorems over a hand-written model + differential correspondence + Lean spec as oracle")
 
-THEOREMS = ["seqPlace_sound", "randPlace_sound", "seqPlace_terminates", "seqPlace_complete_unit", "validPlacement_iff"]
+THEOREMS = ["seqPlace_sound", "randPlace_sound", "saPlace_initial_sound", "seqPlace_terminates",
+            "seqPlace_complete_unit", "validPlacement_iff"]
 
 RULE = ("problems: 0-40 vertices (0-3 units of 1-3 resources, some needing nothing), random nets, machines 1x1..10x10 "
         "with dead chips and per-chip resource exceptions sized so that packing is tight, location constraints (also on "
@@ -183,6 +189,7 @@ def gen_problem(rng, big=False, unit=False, ood=False):
     prob["effort"] = rng.choice([0, 0.1, 1.0, 1.0])
     prob["max_temps"] = rng.choice([1, 2, 3, 6, None] if n <= 8 else [1, 2, 3])
     prob["hilbert_bf"] = rng.random() < 0.5
+    prob["unit_r0"] = r0 if unit else None
     if unit:
         prob["unit"] = unit_ok(prob, r0)
     if n == 0 and overbooked(prob):
@@ -224,8 +231,13 @@ def unit_ok(prob, r0):
         if any(x not in (0, 1) for x in d) or any(d[i] for i in range(len(d)) if i != r0):
             return False
     fixed = set()
+    dflt = list(prob["res"])
     for c in prob["cs"]:
         if c["t"] == "res":
+            if c["c"] is None:
+                # a global reservation is also charged to machine.chip_resources (the description of
+                # every chip without an exception), whether or not a working chip uses it
+                dflt[c["r"]] -= c["amt"]
             for ch in working:
                 if c["c"] is None or tuple(c["c"]) == ch:
                     free[ch][c["r"]] -= c["amt"]
@@ -236,7 +248,7 @@ def unit_ok(prob, r0):
             fixed.add(c["v"])
             for i, x in enumerate(dem[c["v"]]):
                 free[ch][i] -= x
-    if any(x < 0 for f in free.values() for x in f):
+    if any(x < 0 for f in free.values() for x in f) or any(x < 0 for x in dflt):
         return False
     need = sum(d[r0] for v, d, _ in prob["vr"] if v not in fixed)
     return sum(f[r0] for f in free.values()) >= need
@@ -604,6 +616,8 @@ def eval_problems(ctx, probs):
         else:
             obj[what] = rep
     for prob, runs, ut in work:
+        # the hypothesis of the completeness clause is recomputed (replays of older cases included)
+        prob["unit"] = prob.get("unit_r0") is not None and unit_ok(prob, prob["unit_r0"])
         desc = {k: prob[k] for k in prob}
         nontriv = False
         n_work = prob["w"] * prob["h"] - len({tuple(c) for c in prob["dead"] if c[0] < prob["w"] and c[1] < prob["h"]})
@@ -688,7 +702,7 @@ def run(ctx):
         "custom vertex orders are permutations of the vertices (documented precondition of sequential.place)",
         "completeness clause read as: one resource r0, every vertex needs 0 or 1 unit of r0 and nothing else, at least one working chip",
         "termination of the annealing temperature schedule is bounded by the harness through on_temperature_change"]
-    n = ctx.scale(600, 12000)
+    n = ctx.scale(1500, 40000)
     if ctx.extended:
         n *= 4
     rng = ctx.rng
